@@ -149,3 +149,4 @@ def add_constraints(seq1, seq2, material = 'DNA'):
     if len(con) < len(seq1):
         raise ConstraintError('Incompatible constraints {seq1} and {seq2}.')
 
+    return con
